@@ -202,7 +202,7 @@ fn main() {
     let tier = args.get(1).cloned().unwrap_or_else(|| "quick".into());
     let quick = tier == "quick";
     let t0 = std::time::Instant::now();
-    let budget: u64 = if quick { 20_000 } else { 3_000_000 };
+    let budget: u64 = if quick { 12_000 } else { 3_000_000 };
     let sweep_budget: u64 = if quick { 1_500 } else { 100_000 };
     let known: Vec<String> = std::fs::read("/verif/known_findings.json").ok().and_then(|b| serde_json::from_slice::<Value>(&b).ok()).map(|k| k["known"].as_array().into_iter().flatten().filter(|x| x["property"] == "C18").map(|x| x["signature"].as_str().unwrap_or("").to_string()).collect()).unwrap_or_default();
     let cfgs = configs18();
@@ -231,7 +231,7 @@ fn main() {
                 }
             };
             let findings = Arc::new(Mutex::new(Findings::default()));
-            let budget = if cfg.name.starts_with("sweep-") { sweep_budget } else { budget };
+            let budget = if cfg.name.starts_with("sweep") { sweep_budget } else { budget };
             let mut bound = 0usize;
             let (mut total, mut completed_bound, mut exhaustive, mut steps, mut options, mut last_n) = (0u64, None, false, 0usize, 0usize, 0u64);
             loop {
@@ -298,15 +298,15 @@ fn main() {
         "property_id": "C18", "tier": tier, "seed": std::env::var("VERIF_SEED").ok().and_then(|s| s.parse::<u64>().ok()).unwrap_or(0), "level": "model_checking",
         "coverage": {
             "states": states.max(1), "transitions": transitions.max(1), "traces_validated_against_impl": execs,
-            "samples": results.iter().filter(|r| !r["config"].as_str().unwrap_or("").starts_with("sweep-")).take(4).cloned().collect::<Vec<_>>(),
+            "samples": results.iter().filter(|r| !r["config"].as_str().unwrap_or("").starts_with("sweep")).take(4).cloned().collect::<Vec<_>>(),
             "evaluations": execs.max(1), "distinct_nontrivial": results.len(),
             "rule": "one exploration per configuration (84 base configurations: file writer / stream writer × channels 1,2,3,8 × mid-side/fast correlation variants × LPC none/2 × 2 signals × 1 or 3 frames; plus an input sweep of 120 signals × {mono, stereo exhaustive, stereo fast ± mid-side} × LPC 2/8 on one 16-sample block, and 1440 signals × LPC 2/8 mono + 120 stereo on one 576-sample block, with a smaller budget): every schedule of the rayon tasks with ≤ b deviations from the default schedule, b increased until no alternative is pruned (= all schedules) or the execution budget is reached; each execution is the REAL encoder built with the rayon feature over a model of rayon on the shuttle runtime; oracle: bytes identical to the feature-less build's file; states = schedules at the completed bound, transitions = executions × scheduling points",
             "exhaustive": caps.is_empty(),
             "caps_hit": caps,
             "max_distinct_outputs_per_configuration": distinct,
-            "per_configuration": results.iter().filter(|r| !r["config"].as_str().unwrap_or("").starts_with("sweep-") || !r["mismatch"].is_null()).cloned().collect::<Vec<_>>(),
-            "sweep_configurations": results.iter().filter(|r| r["config"].as_str().unwrap_or("").starts_with("sweep-")).count(),
-            "sweep_all_schedules": results.iter().filter(|r| r["config"].as_str().unwrap_or("").starts_with("sweep-") && r["all_schedules"] == true).count(),
+            "per_configuration": results.iter().filter(|r| !r["config"].as_str().unwrap_or("").starts_with("sweep") || !r["mismatch"].is_null()).cloned().collect::<Vec<_>>(),
+            "sweep_configurations": results.iter().filter(|r| r["config"].as_str().unwrap_or("").starts_with("sweep")).count(),
+            "sweep_all_schedules": results.iter().filter(|r| r["config"].as_str().unwrap_or("").starts_with("sweep") && r["all_schedules"] == true).count(),
             "budget_executions_per_bound": budget, "sweep_budget_executions_per_bound": sweep_budget,
             "known_findings": knownn,
         },
